@@ -208,6 +208,9 @@ func (lam *Lambda) BoundCall(s *Scope, depth int) (result Object) {
 // that will be defined when the lambda is called. This is used for methods
 // where the scope will be an instance of a flavor/class.
 func DefLambda(defName string, s *Scope, args List, extraVars ...string) (lam *Lambda) {
+	if len(args) == 0 {
+		ErrorPanic(s, 0, "the lambda list of %s is missing", defName)
+	}
 	var ll List
 	switch tl := args[0].(type) {
 	case List:
